@@ -21,6 +21,9 @@ pub const ZINC_HAND: &[&str] = &[
     "\"\\ud83d\\ude00 \\ud83d x \\ude00 \\ud83d\\u0041 \\udbff\\uffff \\u0000\"",
     "`a\\ud83d\\u0041b\\ud83d\\ude00`",
     "08:05:01.05",
+    "{a:\"ééééééééééééééééééééééééééé\" b:`éééééééééééééééééééééééé` c:@r \"日本語日本語日本語日本語日本語日本語日本語日本語\"}",
+    "[@r \"日本語日本語日本語日本語日本語日本語日本語日本語\", \"😀😀😀😀😀😀😀😀😀😀😀😀😀😀😀😀😀😀\", `ßßßßßßßßßßßßßßßßßßßßßßßßßßßßßßßßßß`]",
+    "ver:\"3.0\" m:\"éééééééééééééééééééééééééééééé\"\na dis:\"ééééééééééééééééééééééééééé\",b\n\"ééééééééééééééééééééééééééééé\",`éééééééééééééééééééééééé`\n",
     // reproducers of the listed known findings (so that every run meets them)
     "8e400°F",
     "1937-06-05T09:56:09+00:20 Amsterdam",
